@@ -425,7 +425,17 @@ def rule_r3(rep, repo):
     sup = [n for n in ast.walk(f.node) if isinstance(n, ast.Call) and norm(n.func) == "super().__init__"]
     okk = False
     if len(sup) == 1 and len(sup[0].args) == 2:
-        w = e5.VG(repo, "MolGrid", f.node, inline=False).ev(sup[0].args[1])
+        warg = sup[0].args[1]
+        # a local that is assigned exactly once stands for its expression (`total = a * b; super().__init__(p, total)`)
+        seen = set()
+        while isinstance(warg, ast.Name) and warg.id not in seen:
+            seen.add(warg.id)
+            defs = [n.value for n in ast.walk(f.node) if isinstance(n, ast.Assign) and len(n.targets) == 1
+                    and isinstance(n.targets[0], ast.Name) and n.targets[0].id == warg.id]
+            if len(defs) != 1:
+                break
+            warg = defs[0]
+        w = e5.VG(repo, "MolGrid", f.node, inline=False).ev(warg)
         okk = w == e5.mk_ac("*", [("attr", ("sym", "self"), "_atweights"), ("attr", ("sym", "self"), "_aim_weights")]) \
             and norm(sup[0].args[0]) in ("self.points", "self._points")
     if okk:
@@ -583,5 +593,7 @@ def run(tier="quick", root="/repo", evidence_dir=None, quiet=False):
     # no counter of a selection used on the full list)
     from gridlint import e9
     rep.attempt(e9.rule_index_spaces, rep, repo, ("molgrid",), "R6.index-space", 2)
+    from gridlint import mol_assembly
+    rep.attempt(mol_assembly.rule_assembly, rep, repo)
     rep.extra["source_digest"] = repo.digest(["molgrid", "atomgrid"])
     return rep.finish(evidence_dir=evidence_dir, quiet=quiet)
